@@ -345,8 +345,20 @@ func (p *queryPlan) processClause(ctx context.Context, cls *semantic.GraphClause
 			return b, nil
 		}
 		if len(p.tbl.Bindings()) > 0 {
-			// The aliases of a fully specified clause are new bindings.
-			return b, p.tbl.DotProduct(tbl)
+			// Join the aliases of the clause with the rows gathered so far: a
+			// cross product when they are new bindings, and only the rows that
+			// agree on their value when an alias reuses an existing binding.
+			rws := p.tbl.Rows()
+			p.tbl.Truncate()
+			p.tbl.AddBindings(tbl.Bindings())
+			for _, r := range rws {
+				for _, nr := range tbl.Rows() {
+					if compatibleRows(r, nr) {
+						p.tbl.AddRow(table.MergeRows([]table.Row{r, nr}))
+					}
+				}
+			}
+			return b, nil
 		}
 		if err := p.tbl.AppendTable(tbl); err != nil {
 			return b, err
